@@ -555,3 +555,80 @@ Section ClimbPrec.
     apply (He _ _ _ _ E).
   Qed.
 End ClimbPrec.
+
+(* ------------------------------------------------------------------------- *)
+(* 5. the whole reduce phase on an operator state                             *)
+(* ------------------------------------------------------------------------- *)
+Section OpState.
+  Variable g : grammar.
+  Variable meta : N -> pmeta.
+  Variable ps pse : bool.
+  Variable ss : nat -> option sym.
+  Variable mp : list (sym * N).
+
+  Lemma fold_other t w : forall acts c,
+    (forall pt, In pt w -> snd pt <> t) ->
+    fold_left (step g meta ps pse ss mp) w (Some acts) = Some c ->
+    assoc t c = assoc t acts.
+  Proof.
+    induction w as [|[p t'] w IH]; intros acts c Hne H; cbn in H.
+    - inversion H; subst. reflexivity.
+    - assert (Ht : t' <> t) by (apply (Hne (p, t')); left; reflexivity).
+      assert (Hne' : forall pt, In pt w -> snd pt <> t) by (intros pt Hi; apply Hne; right; exact Hi).
+      destruct (assoc t' acts) as [l|] eqn:El.
+      + destruct (resolve_one g meta ps pse ss mp p l) as [v|].
+        * rewrite (IH _ _ Hne' H), assoc_aset.
+          destruct (t =? t') eqn:E; [apply N.eqb_eq in E; congruence|reflexivity].
+        * rewrite step_none in H. discriminate.
+      + rewrite (IH _ _ Hne' H), assoc_aset.
+        destruct (t =? t') eqn:E; [apply N.eqb_eq in E; congruence|reflexivity].
+  Qed.
+
+  Lemma fold_one p t F : forall acts c l v,
+    NoDup F -> In t F -> assoc t acts = Some l ->
+    resolve_one g meta ps pse ss mp p l = Some v ->
+    fold_left (step g meta ps pse ss mp) (map (fun t => (p, t)) F) (Some acts) = Some c ->
+    assoc t c = Some v.
+  Proof.
+    induction F as [|t' F IH]; intros acts c l v Hnd Hin Hl Hv H; [destruct Hin|].
+    inversion Hnd as [|? ? Hni Hnd']; subst. cbn [map fold_left] in H.
+    destruct (N.eq_dec t' t) as [->|Hne].
+    - unfold step at 2 in H. rewrite Hl, Hv in H.
+      assert (Hoth : forall pt, In pt (map (fun t0 : N => (p, t0)) F) -> snd pt <> t).
+      { intros pt Hi. apply in_map_iff in Hi. destruct Hi as (t0 & <- & Hi0). cbn.
+        intros ->. contradiction. }
+      rewrite (fold_other t _ _ _ Hoth H), assoc_aset, N.eqb_refl. reflexivity.
+    - destruct Hin as [E|Hin]; [congruence|].
+      unfold step at 2 in H.
+      destruct (assoc t' acts) as [l'|] eqn:El'.
+      + destruct (resolve_one g meta ps pse ss mp p l') as [v'|].
+        * apply (IH (aset t' v' acts) c l v Hnd' Hin); [|exact Hv|exact H].
+          rewrite assoc_aset. destruct (t =? t') eqn:E; [apply N.eqb_eq in E; congruence|exact Hl].
+        * rewrite step_none in H. discriminate.
+      + apply (IH (aset t' [Reduce p] acts) c l v Hnd' Hin); [|exact Hv|exact H].
+        rewrite assoc_aset. destruct (t =? t') eqn:E; [apply N.eqb_eq in E; congruence|exact Hl].
+  Qed.
+End OpState.
+
+(* A state whose only complete item is the production p (E -> E op1 E .) with
+   lookahead set F, holding the SHIFT of x (= op2) whose productions all have
+   priority q: after the whole reduce phase the cell of op2 is the conventional
+   decision, whatever the order of the items. *)
+Theorem op_state_cell g meta pse ss items shifts p F t s' x q c :
+  work_of g items = map (fun t => (p, t)) F -> NoDup F -> In t F ->
+  assoc t shifts = Some [Shift s'] -> ss s' = Some x ->
+  (forall it, In it items -> sym_at g it = Some x -> pm_prior (meta (ri_prod it)) = q) ->
+  (exists it, In it items /\ sym_at g it = Some x) ->
+  rhs_of g p <> [] ->
+  reduce_phase g meta false pse ss items shifts = Some c ->
+  assoc t c = Some (match decide (pm_prior (meta p)) (pm_assoc (meta p)) q with
+                    | DShift => [Shift s']
+                    | DReduce => [Reduce p]
+                    | DConflict => [Shift s'; Reduce p]
+                    end).
+Proof.
+  intros Hw Hnd Hin Hsh Hss Hall Hex Hr H. unfold reduce_phase in H. rewrite Hw in H.
+  eapply fold_one; eauto.
+  apply resolve_dec with (x := x); auto.
+  apply max_prior_uniform; assumption.
+Qed.
